@@ -79,6 +79,28 @@ def tables_of(query):
     return out
 
 
+def cte_names(query):
+    from mindsdb_sql.parser.ast import Select
+    from mindsdb_sql.parser.ast.base import ASTNode
+    out, seen = set(), set()
+
+    def walk(x):
+        if x is None or id(x) in seen:
+            return
+        seen.add(id(x))
+        if isinstance(x, (list, tuple)):
+            for y in x:
+                walk(y)
+        elif isinstance(x, ASTNode):
+            if isinstance(x, Select) and x.cte:
+                for c in x.cte:
+                    out.add(c.name.parts[-1])
+            for v in vars(x).values():
+                walk(v)
+    walk(query)
+    return out
+
+
 def run(tier, seed, replay=None):
     R = Result(PROP, tier, seed, level='proof')
     R.cov['checker_cmd'] = 'make -C /verif/coq; coqc Gen/C10_unit_*.v Gen/C10_plans_*.v'
@@ -192,6 +214,9 @@ def run(tier, seed, replay=None):
             if isinstance(st, FetchDataframeStep) and st.query is not None:
                 stats['fetch_steps'] += 1
                 tabs = [list(t.parts) for t in tables_of(st.query)]
+                # a one-part name that a WITH clause of the fetched query defines is not a table of the integration
+                ctes = cte_names(st.query)
+                tabs = [t for t in tabs if not (len(t) == 1 and t[0] in ctes)]
                 prows.append((sql, cname, pl, st.integration, tabs, orig_tables))
             elif isinstance(st, (ApplyPredictorStep, ApplyPredictorRowStep)):
                 stats['predictor_steps'] += 1
